@@ -317,6 +317,33 @@ Section Proofs.
       simpl. rewrite add_addr_spec by exact Hm. unfold spec_add. rewrite Pv. simpl.
       rewrite store_same. unfold stored. apply bytes_eqb_neq in Hs. rewrite Hs. split; reflexivity.
     Qed.
+    (* the same for Add...Format(name, address), and spelled out per field: the display NAMES and the
+       addresses already stored are untouched by the re-serialise / re-parse round of addAddr, the new
+       entry carries the parsed name, and no other header changes *)
+    Theorem add_keeps_names_and_addresses : forall calls s c v a,
+      (c = CAdd s v \/ exists n ad, c = CAddFormat s n ad /\ v = format_addr n ad) ->
+      parse v = Some a -> slot_hdr s <> hdr_from ->
+      let m := run calls [] in
+      let m' := fst (apply_call m c) in
+      map a_name (lookup m' (slot_hdr s)) = map a_name (lookup m (slot_hdr s)) ++ [a_name a]
+      /\ map a_addr (lookup m' (slot_hdr s)) = map a_addr (lookup m (slot_hdr s)) ++ [a_addr a]
+      /\ (forall k, k <> slot_hdr s -> lookup m' k = lookup m k)
+      /\ snd (apply_call m c) = true.
+    Proof.
+      intros calls s c v a Hc Pv Hs m m'.
+      assert (Hm : from_parse m) by (apply run_spec_from; apply from_parse_empty).
+      assert (E : apply_call m c = spec_add parse m (slot_hdr s) v).
+      { destruct Hc as [->|[n [ad [-> ->]]]]; simpl; apply add_addr_spec; exact Hm. }
+      assert (K : call_key c = slot_hdr s) by (destruct Hc as [->|[n [ad [-> _]]]]; reflexivity).
+      assert (L : lookup m' (slot_hdr s) = lookup m (slot_hdr s) ++ [a]).
+      { unfold m'. rewrite E. unfold spec_add. rewrite Pv. simpl. rewrite store_same. unfold stored.
+        apply bytes_eqb_neq in Hs. rewrite Hs. reflexivity. }
+      repeat split.
+      - rewrite L, map_app. reflexivity.
+      - rewrite L, map_app. reflexivity.
+      - intros k Hk. unfold m'. apply apply_call_other. rewrite K. exact Hk.
+      - rewrite E. unfold spec_add. rewrite Pv. reflexivity.
+    Qed.
   End Roundtrip.
 
   (* ---------------- Bcc non-interference ---------------- *)
